@@ -6,6 +6,7 @@ class Clause:
     def __init__(self, label, text, props=None, witness=None):
         self.label, self.text, self.props = label, text, set(props or ())
         self.witness = witness or {}     # existential variables: name -> (type, code-level expression giving the witness)
+        self.cases = None                # proof by cases under a universal prefix (see by_cases)
 
     def __repr__(self):
         return "Clause(%s)" % self.label
@@ -15,6 +16,8 @@ def _clauses(xs, default_props):
     out = []
     for x in xs or ():
         if isinstance(x, Clause):
+            if not x.props:
+                x.props = set(default_props)
             out.append(x)
         elif isinstance(x, str):
             out.append(Clause("c%d" % len(out), x, default_props))
@@ -28,6 +31,15 @@ def _clauses(xs, default_props):
         if "NodeInit" in c.text:
             c.props = set(c.props) | {"NI"}
     return out
+
+
+def by_cases(label, body, gens, cases, props=""):
+    """clause `all(BODY GENS)` whose proof obligation is split by cases: for every case C_i the obligation
+    all(implies(C_i, BODY) GENS), plus the cover obligation all((C_1) or ... or (C_n) GENS).
+    (forall x. C1=>G) & (forall x. C2=>G) & (forall x. C1 or C2)  |-  forall x. G   is plain logic.)"""
+    c = Clause(label, "all(%s %s)" % (body, gens), props.split() if isinstance(props, str) else props)
+    c.cases = (body, gens, list(cases))
+    return c
 
 
 class Contract:
@@ -94,7 +106,10 @@ class Registry:
         self.loops[(qname, ordinal)] = l
         return l
 
-    def cut(self, qname, after, clauses, props=""):
+    def cut(self, qname, after, clauses, props="", strong=False):
+        if strong:
+            self.strong_cuts = getattr(self, "strong_cuts", set())
+            self.strong_cuts.add((qname, after))
         """intermediate assertion: after the statement tagged `after` (e.g. "if#0", "call:expand#0") every clause is
         proved (obligation kind `cut`) and then kept as a lemma for the rest of the path"""
         self.cuts = getattr(self, "cuts", {})
